@@ -63,10 +63,17 @@ func NewDB(conn *sql.DB, schema *Schema) *DB {
 		Many: func(ctx context.Context, items []interface{}) ([]interface{}, error) {
 			table := items[0].(*BaseSelectQuery).Table
 
-			// First, build the SQL query.
+			// First, build the SQL query. Filters are converted to the driver values
+			// of their columns, the same values a non-batched query sends, so that
+			// int(5) and int64(5), a value and a pointer to it, or a named and a plain
+			// string all denote the same column value below.
 			filters := make([]Filter, 0, len(items))
 			for _, item := range items {
-				filters = append(filters, item.(*BaseSelectQuery).Filter)
+				filter, err := table.columnValues(item.(*BaseSelectQuery).Filter)
+				if err != nil {
+					return nil, err
+				}
+				filters = append(filters, filter)
 			}
 			clause, args := makeBatchQuery(filters)
 			query, err := db.Schema.makeSelect(table.Type, nil, &SelectOptions{
@@ -94,18 +101,18 @@ func NewDB(conn *sql.DB, schema *Schema) *DB {
 			}
 
 			// Finally, match the returned rows against the queries.
+			// Rows and filters are compared by the driver values of their columns, as
+			// the row tester does when matching against the binlog.
 			matcher := newMatcher()
-			for i, item := range items {
-				query := item.(*BaseSelectQuery)
-				// XXX: This needs more rigor, and a test. For now, call coerceMap on rows
-				// and filters to flatten out all pointers to values, etc., to copy what
-				// the row tester does when matching against the binlog. This way, a filter
-				// specifying age=48 will match a value *age=48.
-				matcher.add(i, coerceMap(query.Filter))
+			for i := range items {
+				matcher.add(i, filters[i])
 			}
 			results := make([][]interface{}, len(items))
 			for _, row := range rows {
-				f := coerceMap(table.extractRow(row))
+				f, err := table.columnValues(table.extractRow(row))
+				if err != nil {
+					return nil, err
+				}
 				for _, idx := range matcher.match(f) {
 					i := idx.(int)
 					results[i] = append(results[i], row)
